@@ -99,7 +99,17 @@ structure St where
   prev : List (Nat × Snap Nat)
 
 def emptyObj : Obj Nat := { proto := none, ext := true, props := [] }
-def St.init : St := { heap := fun _ => emptyObj, n := 0, prev := [] }
+/-- the built-in prototypes the modelled kinds inherit from, as far as the key pool of the generator can see them:
+900 = Object.prototype (none of the pool keys), 901 = Function.prototype (`length`, `name`: non-writable, configurable),
+999 = String.prototype (`length`: frozen). -/
+def builtinObj (i : Nat) : Obj Nat :=
+  if i == 901 then
+    { proto := some 900, ext := true,
+      props := [(Key.str "length", SProp.data 5000 false false true), (Key.str "name", SProp.data 5000 false false true)] }
+  else if i == 999 then
+    { proto := some 900, ext := true, props := [(Key.str "length", SProp.data 5000 false false false)] }
+  else emptyObj
+def St.init : St := { heap := builtinObj, n := 0, prev := [] }
 
 def valOf (t : String) : Nat :=
   if t == "u" then 0
